@@ -5,7 +5,6 @@
 package exec
 
 import (
-	"testing"
 	"bytes"
 	"context"
 	"encoding/hex"
@@ -14,6 +13,7 @@ import (
 	"math/big"
 	"os"
 	"strings"
+	"testing"
 	"time"
 
 	"github.com/aergoio/aergo/v2/account/key"
@@ -28,6 +28,7 @@ import (
 	"github.com/aergoio/aergo/v2/zz_verif/simgo"
 	"github.com/aergoio/aergo/v2/zz_verif/simkit"
 	"github.com/aergoio/aergo/v2/zz_verif/simnode"
+	"github.com/libp2p/go-libp2p/core/crypto"
 )
 
 type World struct{ Scratch string }
@@ -73,7 +74,8 @@ type env struct {
 	included []*types.Tx    // every tx included in a block so far
 	admitted map[string]*types.Tx
 	advHash  map[string]string // adversarial tx hash -> why it must never execute
-	deployed [][]byte          // contract addresses
+	candPool []string
+	deployed [][]byte // contract addresses
 	names    []string
 	blockNo  int
 	dead     bool
@@ -200,6 +202,27 @@ func (w *World) Run(x *simkit.Ctx) {
 	x.Out.SimMs = int64(e.blockNo) * 1000
 }
 
+// candidatePool lists producer-candidate ids: the genesis producers and the peer ids derived from the
+// first client keys.
+func (e *env) candidatePool() []string {
+	if e.candPool != nil {
+		return e.candPool
+	}
+	for _, id := range e.net.BPIDs {
+		e.candPool = append(e.candPool, base58.Encode([]byte(id)))
+	}
+	for i := 0; i < len(e.net.Accounts) && len(e.candPool) < 5; i++ {
+		pk, err := crypto.UnmarshalSecp256k1PublicKey(e.net.Accounts[i].Priv.PubKey().SerializeCompressed())
+		if err != nil {
+			continue
+		}
+		if id, err := types.IDFromPublicKey(pk); err == nil {
+			e.candPool = append(e.candPool, base58.Encode([]byte(id)))
+		}
+	}
+	return e.candPool
+}
+
 func genScript(r *simkit.Rng, net *simnode.Net) string {
 	var parts []string
 	for i := r.Range(1, 4); i > 0; i-- {
@@ -310,17 +333,30 @@ func (e *env) buildTx(st *simkit.Step) (tx *types.Tx, adversarial string) {
 		a := new(big.Int).Add(types.StakingMinimum, amt)
 		if st.V%7 == 0 {
 			a = amt // below the minimum: must be refused
+		} else if st.V%2 == 0 {
+			a = new(big.Int).Set(types.StakingMinimum) // equal stakes: ties between candidates
 		}
 		return gov(types.AergoSystem, `{"Name":"v1stake"}`, a), ""
 	case kUnstake:
 		return gov(types.AergoSystem, `{"Name":"v1unstake"}`, new(big.Int).Add(types.StakingMinimum, amt)), ""
 	case kVoteBP:
-		return gov(types.AergoSystem, `{"Name":"v1voteBP","Args":["`+base58.Encode([]byte(net.BPIDs[0]))+`"]}`, new(big.Int)), ""
+		// one to three candidates out of a small pool (the producers plus the ids of client keys), so
+		// that voters overlap and candidates tie
+		pool := e.candidatePool()
+		n := 1 + int(st.V/4)%3
+		args := ""
+		for j := 0; j < n; j++ {
+			if j > 0 {
+				args += ","
+			}
+			args += `"` + pool[(int(st.V)+j*(1+int(st.V/16)%3))%len(pool)] + `"`
+		}
+		return gov(types.AergoSystem, `{"Name":"v1voteBP","Args":[`+args+`]}`, new(big.Int)), ""
 	case kVoteDAO:
 		ids := []string{"BPCOUNT", "GASPRICE", "NAMEPRICE", "STAKINGMIN"}
-		val := []string{"3", "60000000000", "2000000000000000000", "20000000000000000000000"}
+		val := [][]string{{"3", "5"}, {"60000000000", "70000000000"}, {"2000000000000000000", "3000000000000000000"}, {"20000000000000000000000", "30000000000000000000000"}}
 		i := int(st.V) % 4
-		return gov(types.AergoSystem, `{"Name":"v1voteDAO","Args":["`+ids[i]+`","`+val[i]+`"]}`, new(big.Int)), ""
+		return gov(types.AergoSystem, `{"Name":"v1voteDAO","Args":["`+ids[i]+`","`+val[i][int(st.V/4)%2]+`"]}`, new(big.Int)), ""
 	case kNameCreate:
 		name := fmt.Sprintf("name%08d", st.V%100000000)
 		e.names = append(e.names, name)
